@@ -4,14 +4,14 @@
 import json, os, shutil, sys
 sid, check, result = sys.argv[1:4]
 note = sys.argv[4] if len(sys.argv) > 4 else ""
-src = "/tmp/seeds/%s" % sid
+src = "%s/%s" % (os.environ.get("SEEDS_DIR", "/tmp/seeds"), sid)
 dst = "/verif/seeded/%s" % sid
 os.makedirs(dst, exist_ok=True)
 for f in ("patch.diff", "demo.py", "patch_original.diff"):
     if os.path.exists(os.path.join(src, f)):
         shutil.copy(os.path.join(src, f), os.path.join(dst, f))
 m = json.load(open(os.path.join(src, "meta.json")))
-line = [l for l in open("/tmp/seedverify.log") if l.startswith(sid + " ")]
+line = [l for l in open(os.environ.get("SEEDS_LOG", "/tmp/seedverify.log")) if l.startswith(sid + " ")]
 m["confirmed_by_coordinator"] = {
     "procedure": "tools/seedverify.sh: scratch git worktree of /repo under /tmp; demo.py on the clean tree (exit 0); "
                  "git apply patch.diff; demo.py (exit 1); full pytest (988 passed, same as baseline); worktree removed",
